@@ -41,7 +41,7 @@ func gen(t *rapid.T) Case {
 		if inGroup && i%2 == 1 {
 			p = "/g" + p
 		}
-		d := &hist.DSpec{Type: rapid.SampledFrom([]string{"i32", "f64", "u8", "i64", "f32", "str"}).Draw(t, "type")}
+		d := &hist.DSpec{Type: rapid.SampledFrom([]string{"i32", "f64", "u8", "i64", "f32", "str", "cmp:num", "cmp:str", "vl:str"}).Draw(t, "type")}
 		if d.Type == "str" {
 			d.StrSize = 6
 		}
@@ -69,7 +69,9 @@ func gen(t *rapid.T) Case {
 		n := rapid.SampledFrom([]int{0, 1, 2, 4, 10}).Draw(t, "nops")
 		for i := 0; i < n; i++ {
 			o := dss[rapid.IntRange(0, len(dss)-1).Draw(t, "obj")]
-			switch rapid.SampledFrom([]string{"attr", "attr", "attr", "delattr", "write", "create", "mkgroup"}).Draw(t, "k") {
+			switch rapid.SampledFrom([]string{"attr", "attr", "attr", "delattr", "write", "create", "mkgroup", "fit", "fit"}).Draw(t, "k") {
+			case "fit":
+				ops = append(ops, hist.Op{K: "attrfit", Path: o.path, Name: rapid.SampledFrom(names).Draw(t, "aname"), Delta: rapid.IntRange(-4, 6).Draw(t, "delta"), Seed: rapid.IntRange(0, 999).Draw(t, "fseed")})
 			case "attr":
 				a := &hist.AttrVal{Kind: rapid.SampledFrom([]string{"i32", "f64", "str", "str", "[]f64", "u16", "i8"}).Draw(t, "akind"), Seed: rapid.IntRange(0, 999).Draw(t, "aseed")}
 				if a.Kind == "str" {
